@@ -14,6 +14,7 @@ type Generator struct {
 	instructions   []Instruction
 	knownFunctions map[int]*SexpFunction
 	arrayDepth     int // nesting of the array literal being compiled
+	includeDepth   int // nesting of the files being included
 }
 
 type Loop struct {
@@ -29,6 +30,7 @@ type Loop struct {
 func (loop *Loop) IsStackElem() {}
 
 const maxArrayLiteralDepth = 10000
+const maxIncludeDepth = 100
 
 func NewGenerator(env *Zlisp) *Generator {
 	gen := new(Generator)
@@ -573,26 +575,41 @@ func (gen *Generator) GenerateInclude(args []Sexp) error {
 	var err error
 	var exps []Sexp
 
-	var sourceItem func(item Sexp) error
+	var sourceItem func(item Sexp, depth int) error
 
-	sourceItem = func(item Sexp) error {
+	sourceItem = func(item Sexp, depth int) error {
+		if depth > 1000 {
+			// e.g. an array that contains itself
+			return fmt.Errorf("include: file lists nested more than 1000 deep")
+		}
 		switch t := item.(type) {
 		case *SexpArray:
 			for _, v := range t.Val {
-				if err := sourceItem(v); err != nil {
+				if err := sourceItem(v, depth+1); err != nil {
 					return err
 				}
 			}
 		case *SexpPair:
 			expr := item
 			for expr != SexpNull {
-				list := expr.(*SexpPair)
-				if err := sourceItem(list.Head); err != nil {
+				list, isPair := expr.(*SexpPair)
+				if !isPair {
+					return fmt.Errorf("include: Expected a proper list of files, found a dotted pair ending in %T", expr)
+				}
+				if err := sourceItem(list.Head, depth+1); err != nil {
 					return err
 				}
 				expr = list.Tail
 			}
 		case *SexpStr:
+			// the included text is compiled in place, includes in
+			// it too: a file that includes itself would recurse
+			// until the Go stack overflows.
+			gen.includeDepth++
+			defer func() { gen.includeDepth-- }()
+			if gen.includeDepth > maxIncludeDepth {
+				return fmt.Errorf("include: files nested more than %d deep (does '%s' include itself?)", maxIncludeDepth, t.S)
+			}
 			exps, err = gen.env.ParseFile(t.S)
 			if err != nil {
 				return err
@@ -611,7 +628,7 @@ func (gen *Generator) GenerateInclude(args []Sexp) error {
 	}
 
 	for _, v := range args {
-		err = sourceItem(v)
+		err = sourceItem(v, 0)
 		if err != nil {
 			return err
 		}
